@@ -8,8 +8,9 @@ use vh::{json, Cli, Report, Rng};
 fn main() {
     let cli = Cli::parse();
     let mut rep = Report::new("C04", &cli);
-    rep.note("rule", json!("case = Sort / VisualSort / BatchSort / BatchVisualSort (both positional metrics, shards 1..4; for the batch kinds the interleaving is a batch holding several scenes and the projection feeds one scene per batch) x interleaved history of 30..90 predict calls over 2..4 scenes; in 60% of the cases the scenes' objects occupy exactly the same image coordinates; a third of the histories also contain skip_epochs calls for single scenes (scene 0 is addressed through the scene-less API variants in half of the tracker configurations); in ~3% of the cases a further scene of the same tracker holds 1200..1600 tracks (created before the history, never touched again) while the history's own scenes are crowded (14..16 objects). Monitors: (1) lifecycle model: no record may continue a track of another scene; (2) differential: for every scene the projection of the history onto that scene is replayed on a fresh tracker and the interleaved run's records for that scene must equal it call by call - same grouping up to an id bijection built incrementally, and bit-identical boxes, epochs, lengths, custom ids. A grouping difference is handed to the explain-divergence oracle (C02 / C12 references on both runs' own pre-call states): it is a violation unless both outcomes are valid optimal associations (then it is counted as a tie divergence); a difference in numbers with equal grouping is always a violation. One stress case per process and batch kind (48 same-region scenes per batch, 8 voting threads, every detection a new track) checks that records stay within their scene and ids stay fresh while everything the voting threads share collides as often as it can. Non-trivial: scene projections with >= 2 calls in which another scene's call lies between two calls of this scene; distinct by (history, scene)."));
+    rep.note("rule", json!("case = Sort / VisualSort / BatchSort / BatchVisualSort (both positional metrics, shards 1..4; for the batch kinds the interleaving is a batch holding several scenes and the projection feeds one scene per batch) x interleaved history of 30..90 predict calls over 2..4 scenes; in 60% of the cases the scenes' objects occupy exactly the same image coordinates; a third of the histories also contain skip_epochs calls for single scenes (scene 0 is addressed through the scene-less API variants in half of the tracker configurations); in ~3% of the cases a further scene of the same tracker holds 1200..1600 tracks (created before the history, never touched again) while the history's own scenes are crowded (14..16 objects). Monitors: (1) lifecycle model: no record may continue a track of another scene; (2) differential: for every scene the projection of the history onto that scene is replayed on a fresh tracker and the interleaved run's records for that scene must equal it call by call - same grouping up to an id bijection built incrementally, and bit-identical boxes, epochs, lengths, custom ids. A grouping difference is handed to the explain-divergence oracle (C02 / C12 references on both runs' own pre-call states): it is a violation unless both outcomes are valid optimal associations (then it is counted as a tie divergence); a difference in numbers with equal grouping is always a violation. Batch-kind histories without skips are run once more pipelined (every call a one-scene batch, all submitted back to back in the interleaved order A, B, A, ..., results read by consumer threads, two thirds of the passes with the voting threads' store writes stalled): every outcome is judged against the pre-call state of the judged interleaved run. One stress case per process and batch kind (48 same-region scenes per batch, 8 voting threads, every detection a new track) checks that records stay within their scene and ids stay fresh while everything the voting threads share collides as often as it can. Non-trivial: scene projections with >= 2 calls in which another scene's call lies between two calls of this scene; distinct by (history, scene)."));
     rep.note("assumptions", json!(["histories contain no bit-identical detections within a call"]));
+    let ctl = if cli.small { None } else { Some(vh::sched::Controller::install()) };
     let n = cli.cases(640, 5000);
     for idx in cli.index_range(n) {
         let mut rng = Rng::for_case(cli.seed, cli.shard, idx);
@@ -205,6 +206,19 @@ fn main() {
                 rep.nontrivial(hh.get());
                 rep.count("scene_projections_with_interleaving");
             }
+        }
+        // batch kinds, histories without skips: the interleaved history is run once more PIPELINED - every call becomes a
+        // one-scene batch, all of them submitted back to back (A, B, A, ...) with results read by consumer threads, mostly with
+        // the voting threads' store writes stalled. Scene A's k-th call must still be associated against the state its own
+        // (k-1)-th call left behind, whatever other scenes' batches were submitted in between.
+        if kind.is_batch() && !with_skips && !heavy && log.len() >= 3 {
+            let plog: Vec<(u64, Vec<Det>, Vec<Rec>, Vec<LiveTrack>, usize)> = log.iter().filter(|c| c.skip.is_none()).map(|c| (c.scene, c.dets.clone(), c.recs.clone(), c.pre.clone(), c.epoch)).collect();
+            rep.count("pipelined_interleaved_passes");
+            let t0 = std::time::Instant::now();
+            if let Some((sig, d)) = vh::posref::pipelined_pass(&cfg, &plog, ctl.as_deref(), &mut rng, &mut rep, "") {
+                rep.violation(&format!("C04/{:?}/pipelined-interleaving/{}", kind, sig), idx, json!({"cfg": cfg.js(), "scene_order": plog.iter().map(|c| c.0).collect::<Vec<_>>(), "detail": d}));
+            }
+            rep.add("pipelined_interleaved_pass_ms", t0.elapsed().as_millis() as u64);
         }
         if w.same_region {
             rep.count("histories_with_scenes_in_the_same_region");
